@@ -153,6 +153,13 @@ class SimpleOperationExecutor:
             raise IsADirectoryError(
                 'Cannot read a directory: {:s}'.format(filename))
 
+        if (is_file_no_read is None and
+                self._is_file_no_read(
+                    norm_cased_filename, created_files) is False):
+            # Another thread started building the file in the meantime
+            raise FileNotFoundError(
+                'The requested file does not exist: {:s}'.format(filename))
+
         # The file must exist, since we didn't raise a FileNotFoundError or an
         # IsADirectoryError
         if (created_files is None or
@@ -213,6 +220,10 @@ class SimpleOperationExecutor:
         if is_file_no_read is not None:
             return is_file_no_read
         elif os.path.isfile(norm_cased_filename):
+            if self._is_file_no_read(
+                    norm_cased_filename, created_files) is False:
+                # Another thread started building the file in the meantime
+                return False
             self._build_dirs.handle_norm_cased_dir_exists(
                 os.path.dirname(norm_cased_filename))
             return True
@@ -338,9 +349,10 @@ class SimpleOperationExecutor:
         if norm_cased_filename == self._norm_cased_cache_filename:
             return False
         elif self._new_cache.has_norm_cased_file(norm_cased_filename):
-            if (self._new_cache.get_norm_cased_file(norm_cased_filename) is
-                    None):
-                # We are currently building the file
+            operation = self._new_cache.get_norm_cased_file(
+                norm_cased_filename)
+            if operation is None or operation.raised:
+                # We are currently building the file, or we failed to build it
                 return False
         elif self._old_cache.created_norm_cased_file(norm_cased_filename):
             return False
